@@ -2043,11 +2043,7 @@ impl Element {
 
         let mut script_module_content = None;
         // (`<template name>`, `<wxs>` and `<import>` children are moved out of the node list)
-        let hoisted_before = (
-            globals.imports.len(),
-            globals.sub_templates.len(),
-            globals.scripts.len(),
-        );
+        let hoisted_before = ps.hoisted_elements();
         let new_children = if external_tag_type == ExternalTagKind::Script {
             // parse script tag content
             let ElementKind::Include { path, .. } = &element else {
@@ -2103,12 +2099,8 @@ impl Element {
                 vec![]
             }
         };
-        let has_hoisted_children = hoisted_before
-            != (
-                globals.imports.len(),
-                globals.sub_templates.len(),
-                globals.scripts.len(),
-            );
+        // (counted per element, not per definition: a child that repeats a name is dropped, not recorded)
+        let has_hoisted_children = hoisted_before != ps.hoisted_elements();
 
         // parse end tag
         let (close_location, end_tag_location) = if let Some(close_location) = self_close_location {
@@ -2240,6 +2232,12 @@ impl Element {
         }
 
         // write the parsed element
+        if external_tag_type == ExternalTagKind::Script
+            || external_tag_type == ExternalTagKind::Import
+            || template_name.is_some()
+        {
+            ps.count_hoisted_element();
+        }
         if external_tag_type == ExternalTagKind::Script {
             // empty
         } else if external_tag_type == ExternalTagKind::Import {
